@@ -75,15 +75,17 @@ def interpolate(input, coord, kernel="spline", width=2, param=1):
     coord = coord.reshape([npts, ndim])
     output = xp.zeros([batch_size, npts], dtype=input.dtype)
 
+    # widths / parameters are real numbers even when coord has an integer dtype
+    pdtype = np.result_type(coord.dtype, np.float32)
     if np.isscalar(param):
-        param = xp.array([param] * ndim, coord.dtype)
+        param = xp.array([param] * ndim, pdtype)
     else:
-        param = xp.array(param, coord.dtype)
+        param = xp.array(param, pdtype)
 
     if np.isscalar(width):
-        width = xp.array([width] * ndim, coord.dtype)
+        width = xp.array([width] * ndim, pdtype)
     else:
-        width = xp.array(width, coord.dtype)
+        width = xp.array(width, pdtype)
 
     if xp == np:
         _interpolate[kernel][ndim - 1](output, input, coord, width, param)
@@ -159,15 +161,17 @@ def gridding(input, coord, shape, kernel="spline", width=2, param=1):
     coord = coord.reshape([npts, ndim])
     output = xp.zeros([batch_size] + list(shape[-ndim:]), dtype=input.dtype)
 
+    # widths / parameters are real numbers even when coord has an integer dtype
+    pdtype = np.result_type(coord.dtype, np.float32)
     if np.isscalar(param):
-        param = xp.array([param] * ndim, coord.dtype)
+        param = xp.array([param] * ndim, pdtype)
     else:
-        param = xp.array(param, coord.dtype)
+        param = xp.array(param, pdtype)
 
     if np.isscalar(width):
-        width = xp.array([width] * ndim, coord.dtype)
+        width = xp.array([width] * ndim, pdtype)
     else:
-        width = xp.array(width, coord.dtype)
+        width = xp.array(width, pdtype)
 
     if xp == np:
         _gridding[kernel][ndim - 1](output, input, coord, width, param)
